@@ -801,7 +801,7 @@ func c09RestartResumes(p *Program, r *Report) {
 		c := callOf(in)
 		return c != nil && c.IsInvoke() && c.Method.Name() == "Resume" && anyContains(p.origins(c.Value), "Context."+lc.MailboxF.Name()+"<-")
 	})
-	av := p.assumeAvoid(g, map[*types.Var]bool{lc.Continue: true, lc.Restarting: true})
+	av := p.assumeRestarting(lc, g)
 	r.Check(len(resume) > 0 && !anyIn(g.Reach(g.entry(), resume, av), g.Exits), "restart step resumes the mailbox on every path", lc.HandleRestart.Pos(),
 		"with continue ∧ restarting every path from the entry of the restart step to its exit — hooks succeeded or failed — passes Mailbox.Resume() of the actor's own mailbox")
 }
@@ -1377,7 +1377,7 @@ func c09HookDecides(p *Program, r *Report) {
 	// function that are made from the restart step with a closure argument
 	var hooks []*ssa.Call
 	var hookBlocks []*ssa.BasicBlock
-	for _, hf := range p.igx(fn).Fns { // the hook sequence may be extracted into a helper of the restart step
+	for _, hf := range p.igxSkip(fn, lc.roleFuncs(p)).Fns { // the hook sequence may be extracted into a helper of the restart step
 		hookBlocks = append(hookBlocks, hf.Blocks...)
 	}
 	for _, b := range hookBlocks {
@@ -1409,6 +1409,7 @@ func c09HookDecides(p *Program, r *Report) {
 	for i, h := range hooks {
 		name[h] = fmt.Sprintf("hook%d", i+1)
 	}
+	markerMirrored := lc.RestartingF != nil && p.flagMirrorsMarker(lc)
 	spec := guardSpec{
 		Atoms: func(in ssa.Instruction) (string, bool) {
 			if u, ok := in.(*ssa.UnOp); ok && u.Op == token.MUL {
@@ -1417,6 +1418,16 @@ func c09HookDecides(p *Program, r *Report) {
 				}
 				if f, _ := fieldAddr(u.X); f == lc.Restarting {
 					return "restarting", true
+				}
+			}
+			// a defensive nil test of the restart marker: with the restarting flag true the marker is non-nil (validated
+			// correlation, see assumeRestarting)
+			if bo, ok := in.(*ssa.BinOp); ok && (bo.Op == token.EQL || bo.Op == token.NEQ) && isNilConst(bo.Y) && markerMirrored {
+				if f, _ := fieldLoad(bo.X); f == lc.RestartingF {
+					if bo.Op == token.EQL {
+						return "marker-nil", true
+					}
+					return "marker-set", true
 				}
 			}
 			return "", false
@@ -1449,7 +1460,7 @@ func c09HookDecides(p *Program, r *Report) {
 	}
 	// guardEval assigns atoms before events are recorded; record execution through a wrapper on Atoms
 	for mask := 0; mask < 1<<len(hooks); mask++ {
-		cell := map[string]gval{"continue": {known: true, isB: true, b: true}, "restarting": {known: true, isB: true, b: true}}
+		cell := map[string]gval{"continue": {known: true, isB: true, b: true}, "restarting": {known: true, isB: true, b: true}, "marker-nil": {known: true, isB: true, b: false}, "marker-set": {known: true, isB: true, b: true}}
 		var failed []string
 		for i := range hooks {
 			ok := mask&(1<<i) != 0
